@@ -1112,6 +1112,12 @@ class Probe:
                     raise NoEval("try_fold over nothing: Option or Result not told apart")
                 kind = "ok" if oks else "some"
             return (kind, acc)
+        if m == "rfold" and len(e["args"]) == 2 and isinstance(recv, list):
+            acc = self.ev(e["args"][0], env)
+            fv = self.ev(e["args"][1], env)
+            for it in reversed(recv):
+                acc = self.apply(fv, [acc, it])
+            return acc
         if m == "fold" and len(e["args"]) == 2 and isinstance(recv, list):
             acc = self.ev(e["args"][0], env)
             fv = self.ev(e["args"][1], env)
